@@ -218,6 +218,7 @@ func Load(repoDir, tags, goos string) (*Prog, error) {
 	resolveRoles(p.Pkgs)
 	for _, pkg := range p.PkgList {
 		normalizeIterCalls(pkg)
+		normalizeVarDecls(pkg)
 		unrollTableLoops(pkg)
 	}
 	registerErrPredicates(p)
